@@ -124,6 +124,7 @@ type Exec struct {
 	curCall         *ast.CallExpr            // the call a before/after point is attached to (for arg(i))
 	famElem         map[string]types.Type    // spawns mode: element type of each channel family, by element sort
 	callResults     map[*ast.CallExpr]Val    // value each executed call returned (for ret() in `after call:` points)
+	convNode        ast.Node                 // the conversion expression being evaluated (site of a narrowconv obligation)
 	deferVars       map[token.Pos]map[types.Object]Val // entry mode: variable values at each defer statement
 	iterStart       map[int]*State           // state at the start of the current iteration of loop N (for pre(N, e))
 	lastLess        func(st *State, a, b string) string
